@@ -104,6 +104,17 @@ func c06Segs(c *runner.Ctx) ([]*gen.Seg, string, func(), error) {
 				s.Close()
 			}
 		}, nil
+	case 1: // the merge generator of C02 (1-4 inputs, differing field lists, nested merges, all deletion patterns): inputs and output
+		m := genMergeCase(r, 6+c.Idx, c.Tier, c.TmpDir)
+		if m.Err != nil {
+			return nil, "merge-case", m.Close, m.Err
+		}
+		out, _, err := gen.MergeSegs(m.Inputs, m.Drops, m.OutMode)
+		if err != nil {
+			return m.Inputs, "merge-case", m.Close, err
+		}
+		segs := append(append([]*gen.Seg{}, m.Inputs...), out)
+		return segs, "merge-case", func() { m.Close(); out.Close() }, nil
 	default:
 		if c.Idx%60 == 2 { // stored blocks above 1 MiB uncompressed
 			sch := gen.GenSchema(r)
